@@ -478,8 +478,19 @@ func c05RunOne(data []byte) (res c05Result) {
 	}
 	runtime.ReadMemStats(&ms0)
 
+	// how the bytes arrive (decided by the input, like the worker count): a *bytes.Reader, a reader
+	// without Len() (files, network bodies), or short reads of 1..7 bytes
+	rd := func() io.Reader {
+		switch (crc32.ChecksumIEEE(data) >> 2) % 3 {
+		case 1:
+			return plainReader{bytes.NewReader(data)}
+		case 2:
+			return &shortReader{r: bytes.NewReader(data), k: 1 + len(data)%7}
+		}
+		return bytes.NewReader(data)
+	}
 	entry = "Decode"
-	m, err := webp.Decode(bytes.NewReader(data))
+	m, err := webp.Decode(rd())
 	if err == nil {
 		res.Accept++
 		if w := wellFormed(m); w != "" {
@@ -487,7 +498,7 @@ func c05RunOne(data []byte) (res c05Result) {
 		}
 	}
 	entry = "DecodeConfig"
-	cfg, err2 := webp.DecodeConfig(bytes.NewReader(data))
+	cfg, err2 := webp.DecodeConfig(rd())
 	if err2 == nil {
 		res.Accept++
 		if cfg.Width <= 0 || cfg.Height <= 0 || cfg.ColorModel == nil {
@@ -495,7 +506,7 @@ func c05RunOne(data []byte) (res c05Result) {
 		}
 	}
 	entry = "GetFeatures"
-	ft, err3 := webp.GetFeatures(bytes.NewReader(data))
+	ft, err3 := webp.GetFeatures(rd())
 	if err3 == nil {
 		res.Accept++
 		if ft == nil || ft.Width <= 0 || ft.Height <= 0 {
@@ -503,7 +514,7 @@ func c05RunOne(data []byte) (res c05Result) {
 		}
 	}
 	entry = "image.Decode"
-	m2, _, err4 := image.Decode(bytes.NewReader(data))
+	m2, _, err4 := image.Decode(rd())
 	if err4 == nil {
 		res.Accept++
 		if w := wellFormed(m2); w != "" {
@@ -697,7 +708,8 @@ type c05Input struct {
 func runC05(c *ev.Ctx) {
 	c.Rule = "every decoding entry point (Decode, DecodeConfig, GetFeatures, image.Decode, mux.NewDemuxer+Frame/GetChunk/iterator, animation.DecodeBytes+DecodeFrames+" +
 		"DecodeFramesParallel+NewAnimDecoder+NextFrame) on structure-aware mutations (22 operators incl. size-field edits, chunk drop/dup/swap/splice, header edits, truncation, " +
-		"frame repetition) of valid lossy/lossless/alpha/extended/animated/synthesized files, plus hand-made declaration bombs and header-prefixed garbage; in child processes under " +
+		"frame repetition) of valid lossy/lossless/alpha/extended/animated/synthesized files (incl. extreme aspect ratios such as 16000x9), plus hand-made declaration bombs and header-prefixed garbage; " +
+		"per input (by a hash of its bytes) the internal worker count is left at GOMAXPROCS=2 or forced to 16/5/37 and the reader is a bytes.Reader, a reader without Len() or short reads; in child processes under " +
 		"ulimit -v with per-case logging; oracles: no panic / fatal / child death, watchdog (3 isolated re-runs before a verdict), TotalAlloc <= 64MiB + 64*len + 48*(declared px), " +
 		"well-formed results; distinct = distinct (mutation operator, seed kind, number of accepting entry points) tuples"
 	c.Assume("declared pixel area is computed by a tolerant scanner that over-approximates (every header-looking byte sequence counts)")
